@@ -268,6 +268,21 @@ class _Fn:
             # `self._clock.now if self._clock [is not None] else <fallback>`: entities are attached to a
             # simulation (assumption listed in the spec), the fallback is dead
             return self.tag_expr(e.body, st)
+        # shapes that read the clock but are NOT of the form now + offset (so `>= now` does not follow):
+        #   min(a, b, ..) with an argument that is not itself clock-now(+offset) - the minimum may be that argument;
+        #   d.get(key, <clock read>) / getattr(o, name, <clock read>) - the clock is only the DEFAULT, the stored value wins
+        for n in ast.walk(e):
+            if isinstance(n, ast.Call):
+                fname = n.func.id if isinstance(n.func, ast.Name) else (n.func.attr if isinstance(n.func, ast.Attribute) else "")
+                if fname == "min" and len(n.args) >= 2 and not n.keywords:
+                    if any(self.tag_expr(a, st) == "U" for a in n.args if not isinstance(a, ast.Starred)):
+                        return "U"
+                if fname in ("get", "getattr", "pop", "setdefault") and len(n.args) >= 2:
+                    default = n.args[-1]
+                    rest = n.args[:-1] + ([n.func.value] if isinstance(n.func, ast.Attribute) else [])
+                    if any(self._is_now_read(x) for x in ast.walk(default)) \
+                            and not any(self._is_now_read(x) for r in rest for x in ast.walk(r)):
+                        return "U"
         tags = set()
         for n in ast.walk(e):
             if self._is_now_read(n) or self._is_start_read(n):
